@@ -979,6 +979,73 @@ func runC16(c *Check) {
 		}
 	}
 	_ = sort.Strings
+	ruleServerRequestContexts(c, dp, "C16-R10")
+}
+
+// ruleServerRequestContexts (C16-R10): the proxy hands the backing DA the context of the request
+// it serves — derived by net/http from the connection, cancelled when the caller goes away. A
+// BaseContext / ConnContext hook on the HTTP server replaces that root: with the context the
+// server was *started* with (a start-up timeout, a lifecycle hook) every request is born
+// cancelled once start-up is over, a DA that honours its context answers "context canceled" to a
+// live caller, and the client classifies the call as cancelled — the same DA in-process answers.
+func ruleServerRequestContexts(c *Check, dp *Prog, rule string) {
+	c.Doc(rule, "CS: the proxy's HTTP server sets no BaseContext / ConnContext hook (or one that returns context.Background()): request contexts stay rooted in the request, not in a context whose lifetime is the server's start-up.")
+	n := 0
+	var bad []string
+	for _, fn := range dp.Funcs {
+		pk := fnPkg(fn)
+		if pk == nil || !strings.HasSuffix(pk.Pkg.Path(), "/da/jsonrpc") || fn.Blocks == nil {
+			continue
+		}
+		n++
+		for _, b := range fn.Blocks {
+			for _, in := range b.Instrs {
+				st, ok := in.(*ssa.Store)
+				if !ok {
+					continue
+				}
+				fa, ok := st.Addr.(*ssa.FieldAddr)
+				if !ok || !strings.HasSuffix(strings.TrimPrefix(fa.X.Type().String(), "*"), "net/http.Server") {
+					continue
+				}
+				name := fieldLabel(fa.X.Type(), fa.Field)
+				if name != "BaseContext" && name != "ConnContext" {
+					continue
+				}
+				if k, isK := st.Val.(*ssa.Const); isK && k.Value == nil {
+					continue
+				}
+				// a hook that hands back the background context changes nothing
+				harmless := false
+				if mc, isMC := st.Val.(*ssa.MakeClosure); isMC && len(mc.Bindings) == 0 {
+					if hf, _ := mc.Fn.(*ssa.Function); hf != nil {
+						harmless = true
+						for _, hb := range hf.Blocks {
+							if ret, isRet := hb.Instrs[len(hb.Instrs)-1].(*ssa.Return); isRet && len(ret.Results) == 1 {
+								t := TermOf(ret.Results[0], &Ctx{Fn: hf})
+								if !(t.Op == "call" && (t.Name == "context.Background" || t.Name == "context.TODO")) {
+									harmless = false
+								}
+							}
+						}
+					}
+				}
+				if !harmless {
+					bad = append(bad, name+" set in "+fnShort(fn)+"@"+dp.InstrPos(in))
+				}
+			}
+		}
+	}
+	sort.Strings(bad)
+	switch {
+	case n == 0:
+		c.Unk(rule, "server ⟂ request contexts", "", "", "anchor lost: no function of the proxy package")
+	case len(bad) == 0:
+		c.OK(rule, "server ⟂ request contexts rooted in the request", "", "", fmt.Sprintf("no BaseContext / ConnContext hook in the proxy package (%d functions)", n), true)
+	default:
+		c.Bad(rule, "server ⟂ request contexts rooted in the request", "", "", "the proxy's HTTP server replaces the root of every request context ("+strings.Join(bad, ", ")+"): when that context ends while the server keeps serving — a start-up scoped context — every call reaches the backing DA already cancelled although the caller's context is alive, and the client reports cancellation for calls the same DA answers in-process", nil)
+	}
+	c.MinInstances(rule, 1)
 }
 
 // helperIsWireSafe: the helper's accepting alternatives include message containment of its
